@@ -2,8 +2,8 @@
 small Gaussian-like file is judged by Trace_LogReaders.tla; corrupting one recorded field makes TLC
 name the clause.
 run:  PYTHONPATH=${VERIF_REPO:-/repo}:/verif /venv/bin/python -W ignore selftest/X06/corrupt_traces.py
-(on a tree without proposed_fixes/X06_read_pattern_group.patch the recorded trace already fails
-PatternWords; the script shows which clauses each corruption ADDS)
+(on the unchanged tree the recorded trace already fails the known-finding clause
+PatternWords_KnownGroupZero (X06-F1); the script shows which clauses each corruption ADDS)
 """
 import copy
 import sys
